@@ -93,4 +93,20 @@ theorem initState_nextVar (prog : List Term) :
   unfold bootState
   exact loadClauses_nextVar Generated.bootstrapTerms {}
 
+theorem assertStep_cancelAt (s : St) (c : Term) : (assertStep s c).cancelAt = s.cancelAt := by
+  unfold assertStep
+  split
+  · rfl
+  · rfl
+
+theorem assertProg_cancelAt : ∀ (prog : List Term) (s : St), (prog.foldl assertStep s).cancelAt = s.cancelAt
+  | [], _ => rfl
+  | c :: prog, s => by
+    rw [List.foldl_cons, assertProg_cancelAt prog _]
+    exact assertStep_cancelAt s c
+
+theorem initState_cancelAt (prog : List Term) : (initState prog none).cancelAt = none := by
+  unfold initState
+  rw [assertProg_cancelAt prog _]
+
 end PrologVerif.Refine
